@@ -322,9 +322,9 @@ func RunLB(s *sim.Sim, prop string, uniq string) *LB {
 	w.nTasks = len(tasks)
 	// sequential arm: tasks interleave at operation granularity only (no overlap);
 	// concurrent arm: additionally at the armed exploration sites inside MOSN.
-	s.Armed["t:op"] = true
+	s.Arm("t:op")
 	for _, site := range arm {
-		s.Armed[site] = true
+		s.Arm(site)
 	}
 	for _, t := range tasks {
 		go func() {
